@@ -5,6 +5,11 @@ VERIF = os.path.dirname(os.path.dirname(os.path.abspath(__file__)))
 
 # id -> (category, technique, level text, level note, design ref)
 CHECKS = {
+ "C10": ("exploration",
+         "runtime monitoring: reference-graph safety / completeness / idempotence monitor for cleanup() (typed reference extraction at every site before and after, protected-kind fingerprints, second run)",
+         "Generated modules with consistent reference graphs (chains and cycles among SUB_GROUP / SUB_FUNCTION / REF_UNIT, helpers referenced only from STATUS_STRING_REF, typedef AXIS_DESCR, INSTANCE OVERWRITE, S_REC_LAYOUT, USER_RIGHTS, TYPEDEF_AXIS) plus knobs (unused helpers and helper chains, dangling references, empty groups/functions incl. parents that become empty) are cleaned up; protected kinds must survive with unchanged non-reference content, no resolving reference may be removed or lose its target (references to GROUP/FUNCTION may be pruned together with an empty target), no COMPU_METHOD / table / UNIT / RECORD_LAYOUT may survive unreferenced, a second cleanup must change nothing, and a consistent file must stay free of dangling references. 4 000 / 100 000 modules.",
+         "trusts: the frozen site table; 'unused' judged for the four helper kinds whose use is unambiguous; dangling references may be pruned",
+         "DESIGN.md section 3 C10"),
  "C08": ("exploration",
          "runtime monitoring: conservation ledger over element markers (every element of A and B accounted for after merge), name-uniqueness monitor, identity-law monitors, over generated module pairs with controlled overlap",
          "Module pairs are generated with the overlap knobs of the property (disjoint, identical twins, near twins differing in one scalar field, same-name conflicts across kinds inside one namespace, pre-existing X.MERGE / X.MERGE2 names in A and in B, singletons on none/one/both sides, chains of two merges). After merge_modules every element of A must be unchanged (same-name GROUP/FUNCTION may only gain members at the end of their lists), every element of B must be represented exactly once - shared twin, or moved under its name or a fresh name N.MERGE[k] - with content unchanged modulo names, names must be unique per namespace and nothing may be invented; merge(A, empty)=A, merge(A, copy of A)=A, merge(empty, B)=B are checked literally. 3 000 / 60 000 pairs; floors: every namespace renamed and moved at least once.",
